@@ -260,7 +260,7 @@ func (oc *orderChecker) derived(l *loopInfo, v ssa.Value, depth int) int {
 				continue
 			}
 			s := oc.ea.summary(cal)
-			if len(s.writes)+len(s.globals)+len(s.unknown)+len(s.comm) > 0 {
+			if len(s.writes)+len(s.globals)+len(s.unknown)+len(s.comm)+len(s.fvWrites) > 0 {
 				return 0
 			}
 		}
@@ -996,6 +996,29 @@ func (oc *orderChecker) checkCall(l *loopInfo, x *ssa.Call) {
 		}
 		for _, cm := range s.comm {
 			oc.fail(l, x, cal.Name()+" communicates: "+cm)
+		}
+		// a closure called in the loop that writes a variable it captured: fine when that variable (and what it
+		// holds) belongs to the iteration, order-dependent when it is shared between iterations
+		if len(s.fvWrites) > 0 {
+			mc, direct := com.Value.(*ssa.MakeClosure)
+			for _, fw := range s.fvWrites {
+				if !direct || fw.idx >= len(mc.Bindings) {
+					oc.fail(l, x, cal.Name()+": writes captured variable "+fw.name+" ("+fw.what+")")
+					continue
+				}
+				b := mc.Bindings[fw.idx]
+				shared := oc.class(l, b, map[ssa.Value]bool{}) == scShared
+				if al, isAlloc := b.(*ssa.Alloc); isAlloc {
+					for _, r := range *al.Referrers() {
+						if st, ok := r.(*ssa.Store); ok && st.Addr == ssa.Value(al) && pointerLike(st.Val.Type()) && oc.class(l, st.Val, map[ssa.Value]bool{}) == scShared {
+							shared = true
+						}
+					}
+				}
+				if shared {
+					oc.fail(l, x, cal.Name()+": writes captured variable "+fw.name+", which is shared between iterations ("+fw.what+")")
+				}
+			}
 		}
 		for _, w := range s.writes {
 			a := actual(w.param)
